@@ -53,20 +53,34 @@ package netpoll
 //@ ghost global acStored bool
 //@ ghost global acConnect bool
 
+// a connection being set up is not yet visible to any other goroutine or callback (it becomes visible when onPrepare registers it)
+//@ ghost field connection.setup bool threadlocal
+//@ worldrely forall k *connection {k.setup} :: k.setup ==> k.inputBuffer == old(k.inputBuffer) && k.outputBuffer == old(k.outputBuffer) && k.readTrigger == old(k.readTrigger) && k.writeTrigger == old(k.writeTrigger)
+//@   && k.closeCallbacks.v == old(k.closeCallbacks.v) && k.state == old(k.state) && k.outputBarrier == old(k.outputBarrier) && k.fd == old(k.fd)
 //@ func (*connection).init
-//@   trusted body not verified (buffers, descriptor, poller slot, finalizer, OnPrepare, registration); assumed to establish the connection invariant on a new object
-//@   ensures cinv(c) && !c.heldC && !c.heldP && !c.sealed_heldP && c.state == 0
-//@   modifies world
+//@   property C09 C15
+//@   requires c.setup && conn != nil && (typeis(conn, *netFD) ==> conn#val != 0) && !c.heldC && !c.heldP && !c.sealed_heldP && c.closeCallbacks.v == nil && cblist()
+//@   requires mbase(pollmanager) && (pollmanager.status == 2 ==> mgood(pollmanager))
+//@   assume pollmanager.status != 1
+//@   ensures setupdone(c)
+//@   note the descriptor now belongs to c (its netFD is a copy of the caller's): init itself never closes the caller's Conn, c's finalizer closes the number once
+//@   forbid invoke.Close
+//@   modifies world, c.operator, locker.heldP, c.heldC, locker.sealed_heldP, FDOperator.owned, operatorCache.ocl, runFailed, ocBase, prepDone, prepRegistered, prepOK, cbRuns
+//@   note Pick panics when the pollers cannot be opened (known finding of C18); assumed not to happen here
+//@   ghost (*connection).initFDOperator/after call (*manager).Pick#1: assume result != nil
 
 // onAccept: an accepted connection that survived init is given the untrack callback first, then stored, then handed to OnConnect/OnRequest;
 // one that did not survive is neither stored nor started
 //@ func (*server).onAccept
 //@   property C13
-//@   requires s != nil && conn != nil
+//@   requires s != nil && conn != nil && (typeis(conn, *netFD) ==> conn#val != 0)
+//@   note global invariants (callback list, poller pool) hold whenever no manager/AddCloseCallback call is in progress on this goroutine; they are proved where they are changed (C05, C18)
+//@   assume cblist() && mbase(pollmanager) && (pollmanager.status == 2 ==> mgood(pollmanager)) && pollmanager.status != 1
 //@   threadlocal !acUntrack && !acStored && !acConnect
 //@   ensures acStored ==> acUntrack
 //@   ensures acConnect ==> acStored
-//@   modifies world, acUntrack, acStored, acConnect
+//@   modifies world, acUntrack, acStored, acConnect, connection.setup, prepDone, prepOK, prepRegistered, runFailed, FDOperator.owned, locker.sealed_heldP, locker.heldP, locker.heldC, operatorCache.ocl, ocBase, cbRuns
+//@   ghost before call (*connection).init#1: assert !wasalloc(arg0); arg0.setup = true
 //@   ghost before call (*connection).AddCloseCallback#1: acUntrack = true
 //@   ghost before call (*sync.Map).Store#1: assert acUntrack; acStored = true
 //@   ghost before call (*connection).onConnect#1: assert acStored; acConnect = true
@@ -102,7 +116,7 @@ package netpoll
 // what a Listener gives the server: netpoll's own listener returns *netFD (or nil, nil for EAGAIN); a user-supplied Listener must return a netpoll Conn too
 //@ iface Listener.Accept
 //@   results conn err
-//@   ensures conn == nil || typeis(conn, *netFD)
+//@   ensures conn == nil || (typeis(conn, *netFD) && conn#val != 0)
 //@   modifies world
 
 // OnRead of the listener's slot: accept one connection; on descriptor exhaustion detach the listener (level-triggered epoll would spin) and
@@ -116,7 +130,7 @@ package netpoll
 //@   threadlocal !orDetach && !orRetry && !orQuit
 //@   ensures orRetry ==> orDetach
 //@   ensures orQuit ==> orDetach && result != nil
-//@   modifies world, orDetach, orRetry, orQuit, acUntrack, acStored, acConnect
+//@   modifies world, orDetach, orRetry, orQuit, acUntrack, acStored, acConnect, connection.setup, prepDone, prepOK, prepRegistered, runFailed, FDOperator.owned, locker.sealed_heldP, locker.heldP, locker.heldC, operatorCache.ocl, ocBase, cbRuns
 //@   ghost before call (*FDOperator).Control#1: orDetach = true
 //@   ghost before call dyn#1: assert orDetach; orRetry = true
 //@   ghost before call (*FDOperator).Control#2: orDetach = true
@@ -129,7 +143,7 @@ package netpoll
 //@   requires s != nil && s.ln != nil && s.operator.poll != nil && s.operator.detached >= 0 && s.operator.detached < 2147483640
 //@   threadlocal !orReReg
 //@   ensures orReReg
-//@   modifies world, orReReg, acUntrack, acStored, acConnect
+//@   modifies world, orReReg, acUntrack, acStored, acConnect, connection.setup, prepDone, prepOK, prepRegistered, runFailed, FDOperator.owned, locker.sealed_heldP, locker.heldP, locker.heldC, operatorCache.ocl, ocBase, cbRuns
 //@   loop 1 invariant 0 <= retryTimeIndex && retryTimeIndex < 7 && !orReReg && s.ln != nil && s.operator.poll != nil && s.operator.detached >= 0 && s.operator.detached < 2147483640
 //@   ghost before call (*FDOperator).Control#1: assert arg1 == 1; orReReg = true
 
